@@ -127,7 +127,8 @@ def run_case(case):
         port.subscribe_funds(T0, 1e9)
     for i, (ai, qty, price, comm) in enumerate(fills):
         a = names[ai if driver != 'position' else 0]
-        t = T0 + pd.Timedelta(minutes=i)
+        # (with `same_instants` every fourth fill carries the timestamp of the fill - and marks - before it)
+        t = T0 + pd.Timedelta(minutes=i - (1 if case.get('same_instants') and i % 4 == 2 else 0))
         oid = ('o%d' % (i // 3)) if case.get('repeat_order_ids') else 'o%d' % i      # partial fills share an order id
         # (the commission is the documented sixth argument: passed by keyword or by position)
         txn = q.Transaction(a, qty, t, price, oid, commission=comm) if i % 3 else q.Transaction(a, qty, t, price, oid, comm)
@@ -280,6 +281,8 @@ def run_case(case):
         cls.add('fractional_quantities')
     if case.get('subunit_open'):
         cls.add('position_opened_by_a_sub_unit_fill')
+    if case.get('same_instants') and len(fills) > 2:
+        cls.add('fills_at_the_timestamp_of_the_previous_one')
     if case.get('repeat_order_ids'):
         cls.add('fills_sharing_order_ids')
     if any(abs(f[1]) >= 100000 for f in fills):
@@ -376,7 +379,7 @@ def ladders(draw):
         fills.append([a, qty, draw(gen.prices), draw(comm)])
         if draw(st.sampled_from([True, False, False])):
             marks.append([i, draw(st.integers(0, na - 1)), draw(gen.prices)])
-    return {'subunit_open': subunit_open, 'driver': driver, 'fills': fills, 'marks': marks, 'fractional': frac,
+    return {'same_instants': draw(st.booleans()), 'subunit_open': subunit_open, 'driver': driver, 'fills': fills, 'marks': marks, 'fractional': frac,
             'refused_fills': refused,
             'repeat_order_ids': draw(st.sampled_from([False, False, True])), 'bad_marks': draw(st.booleans()),
             'marks_without_dt': driver != 'portfolio' and draw(st.booleans())}
